@@ -251,8 +251,8 @@ func Enumerate(cfg EnumConfig) *EnumStats {
 			st.Exhaustive = false
 		}
 	}
-	if len(st.Violations) > 0 || len(st.Errors) > 0 {
-		st.Exhaustive = false
+	if len(st.Errors) > 0 {
+		st.Exhaustive = false // (violations do not end the enumeration: every case is still evaluated unless MaxViol cut a job)
 	}
 	st.NOutcomes = len(st.outcomes)
 	st.WallS = time.Since(t0).Seconds()
